@@ -206,6 +206,48 @@ def parse_time(e):
     return {'cond': cond, 'reg': out_reg, 'sing': out_sing}
 
 
+def numeric_roundtrip(hs, e):
+    """SEARCH ONLY (floats): |int_0^oo h(t) e^{-s0 t} dt - X(s0)| for s0 = 8, with the Dirac terms
+    handled analytically and break-points at the steps; returns relative error or None"""
+    import mpmath
+    t = Tt
+    if isinstance(hs, sym.Piecewise):
+        hs = hs.args[0][0]
+    if hs.has(sym.nan) or hs.has(sym.zoo):
+        return None
+    s0 = mpmath.mpf(8)
+    hs = sym.expand(hs)
+    dsum = mpmath.mpc(0)
+    reg = 0
+    for a in sym.Add.make_args(hs):
+        ds = list(a.atoms(sym.DiracDelta))
+        if ds:
+            d = ds[0]
+            c = a / d
+            if c.has(t) or len(ds) > 1:
+                return None
+            T = sym.expand(t - d.args[0])
+            k = int(d.args[1]) if len(d.args) > 1 else 0
+            dsum += complex(c) * s0 ** k * mpmath.exp(-s0 * float(T))
+        else:
+            reg += a
+    bps = [0.0]
+    for H in reg.atoms(sym.Heaviside) if reg != 0 else []:
+        T = sym.expand(t - H.args[0])
+        if T.has(t):
+            return None
+        bps.append(float(T))
+    bps = sorted(set(x for x in bps if x >= 0))
+    bps.append(bps[-1] + 40.0)
+    val = mpmath.mpc(0)
+    if reg != 0:
+        f = sym.lambdify(t, reg, modules=[{'Heaviside': lambda x: 1.0 if x >= 0 else 0.0}, 'mpmath'])
+        val = mpmath.quad(lambda tt: f(tt + 1e-30) * mpmath.exp(-s0 * tt), bps)
+    want = complex(e.subs(S, 8))
+    got = complex(val + dsum)
+    return abs(got - want) / max(1.0, abs(want))
+
+
 def parse_safe(h):
     try:
         return limited(60, parse_time, h.sympy)
@@ -362,6 +404,12 @@ def run(case):
         h1 = None
     if h1 is not None:
         out['obs'] = parse_safe(h1)
+        if 'unparsed' in out['obs']:
+            try:
+                err = limited(60, numeric_roundtrip, h1.sympy, e)
+                out['obs']['numeric_err'] = None if err is None else float(err)
+            except BaseException as ex:
+                out['obs']['numeric_err'] = None
         out['is_causal'] = bool(h1.is_causal)
         n1 = len(ILTR.cache)
         h2 = X(lt, **opts)
